@@ -95,7 +95,127 @@ func headerValuesComplete(c *core.Ctx, R string) {
 			return true
 		})
 	}
-	c.Need(R, "range over ResponseHeaders.All() in HttpContext.Write", n, 1)
+	// the other form: the fields are walked in key order and each value list is taken out of the All() map
+	// (`all := ResponseHeaders.All(); … v := all[k]`)
+	isAllMap := func(x *core.Unit, e ast.Expr) bool {
+		d, ok := x.SingleDef(e)
+		if !ok {
+			return false
+		}
+		ce, isC := ast.Unparen(d).(*ast.CallExpr)
+		if !isC || calleeNameOf(ce) != "All" {
+			return false
+		}
+		se, _ := ce.Fun.(*ast.SelectorExpr)
+		return se != nil && fieldOf(x.Info(), se.X) == "HttpContext.ResponseHeaders"
+	}
+	for _, x := range u.WithHelpers() {
+		xi := x.Info()
+		vals := map[types.Object]bool{}
+		ast.Inspect(x.Body, func(nd ast.Node) bool {
+			as, isA := nd.(*ast.AssignStmt)
+			if !isA || len(as.Rhs) != 1 {
+				return true
+			}
+			if ix, isIx := ast.Unparen(as.Rhs[0]).(*ast.IndexExpr); isIx && isAllMap(x, ix.X) {
+				if id, isID := as.Lhs[0].(*ast.Ident); isID && id.Name != "_" {
+					if o := xi.Defs[id]; o != nil {
+						vals[o] = true
+					} else if o := xi.Uses[id]; o != nil {
+						vals[o] = true
+					}
+				}
+			}
+			return true
+		})
+		for vobj := range vals {
+			n++
+			indexed, whole := 0, 0
+			var parents []ast.Node
+			ast.Inspect(x.Body, func(y ast.Node) bool {
+				if y == nil {
+					parents = parents[:len(parents)-1]
+					return true
+				}
+				if id, isID := y.(*ast.Ident); isID && xi.Uses[id] == vobj && len(parents) > 0 {
+					switch p := parents[len(parents)-1].(type) {
+					case *ast.IndexExpr:
+						if p.X == ast.Expr(id) {
+							indexed++
+						}
+					case *ast.SliceExpr:
+						if p.X == ast.Expr(id) {
+							indexed++
+						}
+					default:
+						whole++
+					}
+				}
+				parents = append(parents, y)
+				return true
+			})
+			c.Check(R, "types.(*HttpContext).Write/all-values-of-a-field", x.Pos(), indexed == 0 && whole >= 1, keyf("uses of the value list as a whole: %d; indexed or sliced: %d", whole, indexed))
+		}
+	}
+	c.Need(R, "value lists of ResponseHeaders.All() in HttpContext.Write", n, 1)
+}
+
+// headerNamesFoldedInOrder (C17.14) — the follow-up of 961bd1b in HttpContext.Write.
+func headerNamesFoldedInOrder(c *core.Ctx, R string) {
+	c.Rule(R, "HttpContext.Write folds the scheduled field names to their canonical form in a fixed order and lets two spellings of one field join: no assignment into the response's header map happens inside a `range` over a map (map order decided which of `set-cookie` / `Set-Cookie` survived — the session cookie was lost at random), the keys are sorted, and where a canonical name was already written the values are appended")
+	u := c.Fn(R, "types.(*HttpContext).Write")
+	if u == nil {
+		return
+	}
+	sorted, joined, inMapRange := false, false, false
+	for _, x := range u.WithHelpers() {
+		xi := x.Info()
+		for _, cl := range x.Calls() {
+			if cl.Key == "sort.Strings" || cl.Key == "slices.Sort" {
+				sorted = true
+			}
+		}
+		isHeaderMap := func(e ast.Expr) bool {
+			t := xi.TypeOf(e)
+			return t != nil && strings.HasSuffix(t.String(), "net/http.Header")
+		}
+		var ranges []*ast.RangeStmt
+		var walk func(nd ast.Node) bool
+		walk = func(nd ast.Node) bool {
+			switch st := nd.(type) {
+			case *ast.RangeStmt:
+				ranges = append(ranges, st)
+				ast.Inspect(st.Body, walk)
+				ranges = ranges[:len(ranges)-1]
+				return false
+			case *ast.AssignStmt:
+				for i, l := range st.Lhs {
+					ix, isIx := ast.Unparen(l).(*ast.IndexExpr)
+					if !isIx || !isHeaderMap(ix.X) {
+						continue
+					}
+					for _, r := range ranges {
+						if t := xi.TypeOf(r.X); t != nil {
+							if _, isMap := t.Underlying().(*types.Map); isMap {
+								inMapRange = true
+							}
+						}
+					}
+					if i < len(st.Rhs) {
+						if ce, isC := ast.Unparen(st.Rhs[i]).(*ast.CallExpr); isC && calleeNameOf0(ce) == "append" && len(ce.Args) >= 2 {
+							if ax, isAx := ast.Unparen(ce.Args[0]).(*ast.IndexExpr); isAx && isHeaderMap(ax.X) {
+								joined = true
+							}
+						}
+					}
+				}
+			}
+			return true
+		}
+		ast.Inspect(x.Body, walk)
+	}
+	c.Check(R, "types.(*HttpContext).Write/names-folded-in-fixed-order,spellings-join", u.Pos(), sorted && joined && !inMapRange,
+		keyf("keys sorted: %v; a second spelling appends to the first: %v; header map assigned inside a range over a map: %v", sorted, joined, inMapRange))
 }
 
 // varyAllLines (C17.11) — fix ee3c41e.
